@@ -393,6 +393,47 @@ class World:
             self.hold(hi2, thi)
         return ('traverse',)
 
+    def s_fop(self):
+        """autoref: operators and methods of `Function` objects."""
+        if self.kind != 'autoref':
+            return ('fop-skip',)
+        a, b = self.pick(), self.pick()
+        sp = self.sp
+        k = self.rng.randrange(9)
+        if k == 0:
+            h, want, name = ~a.h, sp.NOT(a.tt), '__invert__'
+        elif k == 1:
+            h, want, name = a.h & b.h, a.tt & b.tt, '__and__'
+        elif k == 2:
+            h, want, name = a.h | b.h, a.tt | b.tt, '__or__'
+        elif k == 3:
+            h, want, name = a.h.implies(b.h), sp.IMPLIES(a.tt, b.tt), \
+                'implies'
+        elif k == 4:
+            h, want, name = a.h.equiv(b.h), sp.EQUIV(a.tt, b.tt), 'equiv'
+        elif k == 5:
+            qv = self._subset()
+            h, want, name = a.h.exist(*qv), sp.exists(a.tt, qv), 'exist'
+        elif k == 6:
+            qv = self._subset()
+            h, want, name = a.h.forall(*qv), sp.forall(a.tt, qv), 'forall'
+        elif k == 7:
+            qv = [v for v in self._subset(1) if v.isidentifier()]
+            d = {v: self.rng.random() < 0.5 for v in qv}
+            if not d:
+                return ('fop-skip',)
+            h, want, name = a.h.let(**d), sp.cofactor(a.tt, d), 'let'
+        else:
+            got = (a.h <= b.h, a.h == b.h, a.h != b.h, a.h < b.h)
+            imp = (a.tt & (sp.full ^ b.tt)) == 0
+            want = (imp, a.tt == b.tt, a.tt != b.tt, imp and a.tt != b.tt)
+            if got != want:
+                raise Violation('Function.comparison', 'wrong-result',
+                                (got, want))
+            return ('fop', 'compare')
+        self.accept('Function.' + name, h, want)
+        return ('fop', name)
+
     def s_drop(self):
         if len(self.pool) > 1:
             self.drop(self.rng.randrange(len(self.pool)))
@@ -749,7 +790,7 @@ class World:
         **{'not': 2}, let_const=3, let_rename=3, let_compose=3, cube=1, var=1,
         add_expr=3, to_expr=1, dup=2, drop=6, drop_many=1, gc=4,
         gc_rooted=1, swap=3, sift=1, reorder_to=1, pairs=1, declare=0,
-        undeclare=0, copy_roundtrip=1, dump_load=0, traverse=0, canon=0)
+        undeclare=0, copy_roundtrip=1, dump_load=0, traverse=0, canon=0, fop=0)
 
     def step(self, menu):
         """Execute one random step from `menu` (name -> weight) and run
